@@ -86,7 +86,11 @@ Print Assumptions C05_wspb_status_unguarded_refuted.
 Example C05_wsjson_example :
   let m := mkMsg 7 x01 (str "/a") (mkStatus 500 (str "x") None) [(str "k", [dqt; bsl])] x6a [bsl; x0a; dqt] in
   json_ok m = true /\ exists b size, wsj_pack (fun b => b) jesc_byte 1000 [] m = Ok (b, size).
-Proof. intros m. split; [vm_compute; reflexivity|]. eexists. eexists. vm_compute. reflexivity. Qed.
+Proof.
+  intros m. split; [vm_compute; reflexivity|].
+  remember (wsj_pack (fun b => b) jesc_byte 1000 [] m) as r eqn:E. vm_compute in E. subst r.
+  eexists. eexists. reflexivity.
+Qed.
 
 Example C05_wspb_example :
   let m := mkMsg (-7) x03 [xff; x00] status_zero [(str "k", [xff])] x6a [x00; xff] in
@@ -95,5 +99,6 @@ Example C05_wspb_example :
 Proof.
   intros m. split; [vm_compute; reflexivity|]. split.
   - intros body H. cbn in H. injection H as <-. repeat split; vm_compute; reflexivity.
-  - eexists. eexists. vm_compute. reflexivity.
+  - remember (wspb_pack 1000 [] m) as r eqn:E. vm_compute in E. subst r.
+    eexists. eexists. reflexivity.
 Qed.
